@@ -49,7 +49,7 @@ CLAIMED = {
          "The divider only ever sees sorted duplicate-free lists, a bounded dividend and a non-nil map; a faulty division is reported, never spent, and termination still waits for in-flight items; zero shares are rejected over the registered priorities (defect found and fixed).",
          "DESIGN.md section 5 C15"),
  "C16": ("blocking-operation inventory per goroutine, SCC decomposition of every CFG cycle with stop-exit requirement, defer run-order rules",
-         "Every wait reachable from a v1 goroutine watches every stop signal of that goroutine or is an enumerated bounded idiom; every loop has a bounded trip count or leaves on stop; defers complete the breakers last. Found the waitCalcTactic hang (fixed) and the Simple graceful/stop finding (known). No real-time bound is derived.",
+         "Every wait reachable from a v1 goroutine watches every stop signal of that goroutine or is an enumerated bounded idiom; every loop has a bounded trip count or leaves on stop; defers complete the breakers last. Found the waitCalcTactic hang (fixed) and the Simple graceful-then-stop hang (fixed). No real-time bound is derived.",
          "DESIGN.md section 5 C16"),
  "C17": ("channel-capacity provenance, clause-body rules, same-block lookup rule, reuse of B11/X1/D2/P2",
          "Structure that makes Add/RemoveInput effective on return and keeps the other invariants independent of the priority set.",
